@@ -27,7 +27,7 @@ ASSUMPTIONS = [
     "an update that raises appends nothing and is not expanded (counted in notes.rejected_updates); C07 decides which updates may raise",
     "n_grains <= 8 in histories (3500 for the default-constructed mineral); banded-Jacobian path (n > 4632) outside the bound",
 ]
-BOUND = {"quick": "history depth 2, 20 update letters, <=1 root deviation", "thorough": "history depth 3, <=2 root deviations"}
+BOUND = {"quick": "history depth 2, 20 update letters, <=1 root deviation", "thorough": "history depth 3 over 15 letters from the <=1-deviation roots; depth 2 over 20 letters from the roots with 2 deviations"}
 CHUNK = 1
 
 
@@ -57,9 +57,18 @@ CHAIN_K = [1, 2, 5, 10, 25, 50, 100]
 
 
 def gen_cases(tier, seed):
-    keys = H.root_keys(tier, list(H.REGIMES), dev=1 if tier == "quick" else 2)
+    keys = H.root_keys(tier, list(H.REGIMES), dev=1)
     for k in keys:
         k["depth"] = 2 if tier == "quick" else 3
+    if tier == "thorough":
+        # depth 3 from the <=1-deviation roots (over the 15 core letters, see run_case) and
+        # depth 2 over all 20 letters from the roots with exactly 2 deviations
+        have = {tuple(sorted(k.items())) for k in keys}
+        for k in H.root_keys(tier, list(H.REGIMES), dev=2):
+            k["depth"] = 3
+            if tuple(sorted(k.items())) not in have:
+                k["depth"] = 2
+                keys.append(k)
     # larger aggregates (the shared root axis stops at 8 grains)
     for fab in alph.FABRICS:
         for reg in ("disl", "yield"):
@@ -177,6 +186,8 @@ def run_case(key):
 
     if key["part"] == "hist":
         letters = LETTERS if n < 1000 else [("ss_xz", 0.1), ("gen", 0.5)]
+        if key["depth"] >= 3:
+            letters = letters[:15]  # 15 + 225 + 3375 transitions per root
         ns, nt = H.bfs(root, letters, key["depth"], step)
         res["states"], res["trans"] = ns, nt
         if H.LAST["budget_stop"]:
